@@ -181,6 +181,77 @@ fn mac(m: &Macro) -> Value {
     Value::Object(o)
 }
 
+fn strip_dollar(stream: TokenStream) -> TokenStream {
+    let mut out = TokenStream::new();
+    let mut it = stream.into_iter().peekable();
+    while let Some(tt) = it.next() {
+        match tt {
+            TokenTree::Punct(ref p) if p.as_char() == '$' => {
+                if let Some(TokenTree::Ident(_)) = it.peek() {
+                    continue; // `$name` -> `name`
+                }
+                out.extend(std::iter::once(tt));
+            }
+            TokenTree::Group(g) => {
+                let mut ng = proc_macro2::Group::new(g.delimiter(), strip_dollar(g.stream()));
+                ng.set_span(g.span());
+                out.extend(std::iter::once(TokenTree::Group(ng)));
+            }
+            other => out.extend(std::iter::once(other)),
+        }
+    }
+    out
+}
+
+/// `( $a:expr, $b:ident ) => { body } [;]` -> (["a","b"], body as a block)
+fn single_rule(stream: TokenStream) -> Option<(Vec<String>, Value)> {
+    let tts: Vec<TokenTree> = stream.into_iter().collect();
+    let mut n = tts.len();
+    if n > 0 {
+        if let TokenTree::Punct(p) = &tts[n - 1] {
+            if p.as_char() == ';' {
+                n -= 1;
+            }
+        }
+    }
+    if n != 4 {
+        return None;
+    }
+    let (pat_g, body_g) = match (&tts[0], &tts[1], &tts[2], &tts[3]) {
+        (TokenTree::Group(a), TokenTree::Punct(e), TokenTree::Punct(gt), TokenTree::Group(b))
+            if e.as_char() == '=' && gt.as_char() == '>' =>
+        {
+            (a, b)
+        }
+        _ => return None,
+    };
+    let pts: Vec<TokenTree> = pat_g.stream().into_iter().collect();
+    let mut params = vec![];
+    let mut i = 0;
+    while i < pts.len() {
+        match (&pts.get(i), &pts.get(i + 1), &pts.get(i + 2), &pts.get(i + 3)) {
+            (Some(TokenTree::Punct(d)), Some(TokenTree::Ident(name)), Some(TokenTree::Punct(c)), Some(TokenTree::Ident(_)))
+                if d.as_char() == '$' && c.as_char() == ':' =>
+            {
+                params.push(name.to_string());
+                i += 4;
+            }
+            _ => return None,
+        }
+        if i < pts.len() {
+            match &pts[i] {
+                TokenTree::Punct(c) if c.as_char() == ',' => i += 1,
+                _ => return None,
+            }
+        }
+    }
+    let inner = strip_dollar(body_g.stream());
+    let stmts = parse::Parser::parse2(Block::parse_within, inner).ok()?;
+    let mut o = obj("Block", body_g.span().start().line);
+    o.insert("stmts".into(), Value::Array(stmts.iter().map(stmt).collect()));
+    Some((params, Value::Object(o)))
+}
+
 fn attrs(a: &[Attribute]) -> Value {
     Value::Array(
         a.iter()
@@ -424,21 +495,34 @@ fn expr(e: &Expr) -> Value {
         }
         Expr::ForLoop(f) => {
             o = obj("ForLoop", l);
+            if let Some(lb) = &f.label {
+                o.insert("label".into(), json!(lb.name.ident.to_string()));
+            }
             o.insert("pat".into(), pat(&f.pat));
             o.insert("iter".into(), expr(&f.expr));
             o.insert("body".into(), block(&f.body));
         }
         Expr::While(w) => {
             o = obj("While", l);
+            if let Some(lb) = &w.label {
+                o.insert("label".into(), json!(lb.name.ident.to_string()));
+            }
             o.insert("cond".into(), expr(&w.cond));
             o.insert("body".into(), block(&w.body));
         }
         Expr::Loop(lp) => {
             o = obj("Loop", l);
+            if let Some(lb) = &lp.label {
+                o.insert("label".into(), json!(lb.name.ident.to_string()));
+            }
             o.insert("body".into(), block(&lp.body));
         }
         Expr::Block(b) => {
-            return block(&b.block);
+            let mut v = block(&b.block);
+            if let (Some(lb), Value::Object(m)) = (&b.label, &mut v) {
+                m.insert("label".into(), json!(lb.name.ident.to_string()));
+            }
+            return v;
         }
         Expr::Unsafe(b) => {
             o = obj("Unsafe", l);
@@ -520,10 +604,16 @@ fn expr(e: &Expr) -> Value {
         }
         Expr::Break(b) => {
             o = obj("Break", l);
+            if let Some(lb) = &b.label {
+                o.insert("label".into(), json!(lb.ident.to_string()));
+            }
             o.insert("expr".into(), opt_expr(&b.expr));
         }
-        Expr::Continue(_) => {
+        Expr::Continue(c) => {
             o = obj("Continue", l);
+            if let Some(lb) = &c.label {
+                o.insert("label".into(), json!(lb.ident.to_string()));
+            }
         }
         Expr::Try(t) => {
             o = obj("Try", l);
@@ -798,6 +888,13 @@ fn item(i: &Item) -> Value {
                 json!(m.ident.as_ref().map(|i| i.to_string()).unwrap_or_default()),
             );
             mo.insert("attrs".into(), attrs(&m.attrs));
+            if m.mac.path.is_ident("macro_rules") {
+                if let Some((params, body)) = single_rule(m.mac.tokens.clone()) {
+                    // a one-rule macro whose parameters are plain `$x:frag`: the body parsed as a block with `$x` read as `x`
+                    mo.insert("rule_params".into(), json!(params));
+                    mo.insert("rule_body".into(), body);
+                }
+            }
             // try to parse the body as items (e.g. impl_from!{...} expands are not
             // visible, but invocation args are kept as tokens)
             o = mo;
